@@ -597,10 +597,14 @@ pub fn dp_under_fdl_images(n_periph: usize, answers: &[u8], with_member: bool, m
                 Some(i) => i,
                 None => continue,
             };
-            let ans = DP_ANSWERS[*answers.get(requests).unwrap_or(&0) as usize % DP_ANSWERS.len()];
+            let mut ans = DP_ANSWERS[*answers.get(requests).unwrap_or(&0) as usize % DP_ANSWERS.len()];
             requests += 1;
-            last_ans = Some((ans, si));
             let genuine = if ans != DpAns::Silence { slaves[si].handle(&f) } else { None };
+            // a reply of at most 4 bytes (a short confirmation) is not changed by cutting it after 4 bytes
+            if ans == DpAns::Truncated && genuine.as_ref().map(|g| g.len() <= 4).unwrap_or(false) {
+                ans = DpAns::Slave;
+            }
+            last_ans = Some((ans, si));
             let t11 = bus.us_ceil(tx.end + 11 * BIT) + 1;
             let d = |da: u8, sa: u8, fc: u8, dsap: Option<u8>, ssap: Option<u8>, du: Vec<u8>| rc::encode(&rc::RFrame::Data { da, sa, dsap, ssap, fc, du });
             let bytes: Option<Vec<u8>> = match ans {
